@@ -119,11 +119,16 @@ def main():
              "analysis_error_only": bool(own.get("analysis_errors_added")) and not caught_own,
              "verif_commit": sh("git -C %s log --format=%%h -1" % VERIF).stdout.strip()}
     old_meta = os.path.join(dest, "meta.json")
+    note = None
     if os.path.exists(old_meta):
         try:
-            first = json.load(open(old_meta)).get("first_pass")     # a seed kept before first passes were recorded has none
+            om = json.load(open(old_meta))
+            first = om.get("first_pass")     # a seed kept before first passes were recorded has none
+            note = om.get("note")            # a hand-written remark about the seed survives re-evaluation
         except Exception:
             pass
+    if note:
+        meta["note"] = note
     if first is not None:
         meta["first_pass"] = first
     json.dump(meta, open(os.path.join(dest, "meta.json"), "w"), indent=1)
